@@ -269,22 +269,48 @@ def many_salts(ctx, im, rnd):
     coincide with probability 2^-64 per pair; salts folded into a small tag space (16 bits, first characters, length ...) collide"""
     teams = ["pricing", "search", "checkout", "email", "onboarding", "growth", "ads", "recs"]
     k = 600 if ctx.quick() else 2500  # per shard (each shard has its own salt list)
-    salts = ["%s_%s_v%d" % (rnd.choice(teams), rnd.choice(["btn", "copy", "rank", "flow", "s%d" % ctx.shard]), i) for i in range(k)]
+    tag = lambda: rnd.choice(["btn", "copy", "rank", "flow", "s%d" % ctx.shard])  # noqa: E731
+    families = {
+        "plain": lambda i: "%s_%s_v%d" % (rnd.choice(teams), tag(), i),
+        # salts that look like the things people paste: tracker URLs, ticket references with comment-looking punctuation,
+        # names with runs of blanks - the part that tells two of them apart comes after the '//', '/*' or blank run
+        "url": lambda i: "https://exp.example.com/%s/%s/%d" % (teams[ctx.shard % len(teams)], "flow", i),
+        "commented": lambda i: "%s /* %s */ rev %d" % (teams[ctx.shard % len(teams)], "approved", i),
+        "spaced": lambda i: "%s  %s%s" % (teams[ctx.shard % len(teams)], " " * (i % 7), i // 7),
+    }
     units = [dict(uid=u) for u in list(range(1000, 1032)) + ["user-%d" % i for i in range(32)]]
     seen = {}
-    for salt in salts:
-        text = program(["1", "1"], salt, ["uid"])
-        got, err = assign(im, text, units)
-        ctx.evaluated(len(units))
-        if got is None:
-            ctx.violation("evaluation-failed", dict(text=text, error=err), mechanism="C04/evaluation-failed")
-            return
-        sig = tuple(got)
-        other = seen.setdefault(sig, salt)
-        if other != salt:
-            ctx.violation("assignments-under-two-salts-identical", dict(salts=[other, salt], units=len(units), weights=["1", "1"],
-                                                                        identical_fraction=1.0), mechanism="C04/salts-not-independent")
-            return
+    salts = []
+    for fi, (fam, make) in enumerate(families.items()):
+        for via in ("fresh", "recompile"):
+            # "recompile": one long-lived evaluator is moved from salt to salt, as a service following a config store does
+            share = k // 2 if fam == "plain" and via == "fresh" else k // 10
+            mine = [make(i) for i in range(share)]
+            salts += mine
+            holder = None
+            for salt in mine:
+                text = program(["1", "1"], salt, ["uid"])
+                if via == "recompile" and holder is not None:
+                    try:
+                        holder[1].recompile(text)
+                        got, err = assign(im, text, units, holder)
+                    except Exception as e:  # noqa: BLE001
+                        got, err = None, f"recompile raised {type(e).__name__}: {e}"[:200]
+                else:
+                    holder = im.construct(text)
+                    got, err = assign(im, text, units, holder) if holder[0] == "ok" else (None, str(holder[1:])[:200])
+                ctx.evaluated(len(units))
+                ctx.count(f"many-salts/{fam}/{via}")
+                if got is None:
+                    ctx.violation("evaluation-failed", dict(text=text, error=err, via=via), mechanism="C04/evaluation-failed")
+                    return
+                sig = tuple(got)
+                other = seen.setdefault(sig, salt)
+                if other != salt:
+                    ctx.violation("assignments-under-two-salts-identical", dict(salts=[other, salt], units=len(units), weights=["1", "1"],
+                                                                                identical_fraction=1.0, via=via, family=fam),
+                                  mechanism="C04/salts-not-independent")
+                    return
     ctx.count("many-salts/salts", len(salts))
     ctx.count("many-salts/pairs-compared", len(salts) * (len(salts) - 1) // 2)
     ctx.nontrivial("many-salts", ctx.shard, len(salts))
